@@ -498,3 +498,40 @@ def arg_or_kw(call: ast.Call, pos: int, name: str):
 def params(fn) -> list[str]:
     a = fn.args
     return [x.arg for x in [*a.posonlyargs, *a.args, *a.kwonlyargs]]
+
+
+def inline_locals(fn: ast.AST, expr: ast.AST, depth: int = 5) -> ast.AST:
+    """Copy of `expr` in which every local of `fn` that is assigned exactly once (plain `name = value`, not a
+    parameter, loop target, augmented or walrus target) is replaced by its defining expression: rules compare the
+    result, which does not depend on how locals are called."""
+    import copy
+
+    params = {a.arg for a in [*fn.args.posonlyargs, *fn.args.args, *fn.args.kwonlyargs]} if hasattr(fn, "args") else set()
+    defs: dict[str, list] = {}
+    blocked = set(params)
+    for n in own_nodes(fn):
+        if isinstance(n, ast.Assign) and len(n.targets) == 1 and isinstance(n.targets[0], ast.Name):
+            defs.setdefault(n.targets[0].id, []).append(n.value)
+        elif isinstance(n, ast.AnnAssign) and isinstance(n.target, ast.Name) and n.value is not None:
+            defs.setdefault(n.target.id, []).append(n.value)
+        elif isinstance(n, ast.Name) and isinstance(n.ctx, ast.Store):
+            p = parent(n)
+            if not (isinstance(p, (ast.Assign, ast.AnnAssign)) and (getattr(p, "targets", [None])[0] is n or getattr(p, "target", None) is n)):
+                blocked.add(n.id)  # loop / with / tuple / augmented / walrus target
+    single = {k: v[0] for k, v in defs.items() if len(v) == 1 and k not in blocked}
+
+    class T(ast.NodeTransformer):
+        def __init__(self, left):
+            self.left = left
+
+        def visit_Name(self, node):
+            if isinstance(node.ctx, ast.Load) and node.id in single and self.left > 0:
+                return T(self.left - 1).visit(copy.deepcopy(single[node.id]))
+            return node
+
+    return T(depth).visit(copy.deepcopy(expr))
+
+
+def inorm(fn: ast.AST, expr: ast.AST) -> str:
+    """norm() of `expr` with the single-assignment locals of `fn` inlined."""
+    return norm(inline_locals(fn, expr))
